@@ -54,6 +54,26 @@ fn tables_family(t: &mut Trace, seed: u64, thorough: bool) {
     }
 }
 
+/// Digests of the complete tables as THIS process built them (it may have been started under a restricted CPU affinity:
+/// `cpus` is what the process sees).  `base` carries the digests of the unrestricted process of the same run, whose
+/// tables TLC validates entry by entry: the tables must not depend on the environment they are built in.
+fn tabledig_family(t: &mut Trace, base: Option<&str>) {
+    let el = &*tables::EXP_LOG;
+    let as_bytes16 = |v: &[u16]| -> Vec<u8> { v.iter().flat_map(|x| x.to_le_bytes()).collect() };
+    let mut d = Obj::new();
+    d = d.str("exp", &util::fnv_hex(&as_bytes16(&el.exp[..])));
+    d = d.str("log", &util::fnv_hex(&as_bytes16(&el.log[..])));
+    d = d.str("logwalsh", &util::fnv_hex(&as_bytes16(&tables::LOG_WALSH[..])));
+    d = d.str("skew", &util::fnv_hex(&as_bytes16(&tables::SKEW[..])));
+    let m16: Vec<u8> = tables::MUL16.iter().flat_map(|lut| lut.iter().flat_map(|row| row.iter().flat_map(|x| x.to_le_bytes()))).collect();
+    d = d.str("mul16", &util::fnv_hex(&m16));
+    let m128: Vec<u8> = tables::MUL128.iter().flat_map(|lut| lut.lo.iter().chain(lut.hi.iter()).flat_map(|x| x.to_le_bytes())).collect();
+    d = d.str("mul128", &util::fnv_hex(&m128));
+    let digs = d.done();
+    let cpus = std::thread::available_parallelism().map_or(0, std::num::NonZero::get);
+    t.line(&Obj::new().str("ev", "tabledig").us("cpus", cpus).raw("digs", &digs).raw("base", base.unwrap_or(&digs)).done());
+}
+
 // ----------------------------------------------------------------------
 // mul
 
@@ -595,6 +615,7 @@ pub fn main(args: &Args) -> i32 {
     for f in fam.split(',') {
         match f {
             "tables" => tables_family(&mut t, seed, thorough),
+            "tabledig" => tabledig_family(&mut t, args.get("base")),
             "mul" => mul_family(&mut t, seed, thorough, &engines),
             "xf" => xf_family(&mut t, seed, thorough, &engines),
             "impulse" => impulse_family(&mut t, seed, thorough, &engines),
